@@ -72,9 +72,14 @@ def repo_tree_hash():
 
 LIB_KINDS = {
     # name: (cmake args, extra compile flags for harnesses)
+    # production-like: assertions compiled out, so traces contain exactly the operations of a release build
     'fiber': (['-DCMAKE_BUILD_TYPE=RelWithDebInfo', '-DYACLIB_FAULT=FIBER', '-DYACLIB_CXX_STANDARD=20',
-               '-DYACLIB_FLAGS=CORO', '-DYACLIB_DEFINITIONS=YACLIB_VERIF', '-DYACLIB_LOG=DEBUG'],
-              ['-std=c++20', '-fcoroutines', '-DYACLIB_VERIF', '-DYACLIB_LOG_DEBUG']),
+               '-DYACLIB_FLAGS=CORO', '-DYACLIB_DEFINITIONS=YACLIB_VERIF'],
+              ['-std=c++20', '-fcoroutines', '-DYACLIB_VERIF']),
+    # same with the library's own assertions turned into callbacks (extra monitor; adds loads to the traces)
+    'fiber_dbg': (['-DCMAKE_BUILD_TYPE=RelWithDebInfo', '-DYACLIB_FAULT=FIBER', '-DYACLIB_CXX_STANDARD=20',
+                   '-DYACLIB_FLAGS=CORO', '-DYACLIB_DEFINITIONS=YACLIB_VERIF', '-DYACLIB_LOG=DEBUG'],
+                  ['-std=c++20', '-fcoroutines', '-DYACLIB_VERIF', '-DYACLIB_LOG_DEBUG']),
     'fiber_asan': (['-DCMAKE_BUILD_TYPE=RelWithDebInfo', '-DYACLIB_FAULT=FIBER', '-DYACLIB_CXX_STANDARD=20',
                     '-DYACLIB_FLAGS=CORO;ASAN;UBSAN', '-DYACLIB_DEFINITIONS=YACLIB_VERIF', '-DYACLIB_LOG=DEBUG'],
                    ['-std=c++20', '-fcoroutines', '-DYACLIB_VERIF', '-DYACLIB_LOG_DEBUG',
